@@ -321,9 +321,51 @@ let op_scope (args : str list) : str list =
        | Some (ps, nm) -> ["bad"; string_of_int (int_of_n ps); str_of_text nm])
   | _ -> ["bad-args"]
 
+(* statements: "<hex text of FUNCTION_BLOCK name body END_FUNCTION_BLOCK>" -> parsed <S-expressions> | rejected | fuel | scope *)
+let hex_of_text (t : text) : str = S.concat "" (List.map (fun c -> Printf.sprintf "%x." (int_of_n c)) t)
+let lname (t : text) : str = S.lowercase_ascii (str_of_text t)
+let rec sx_expr (e : sexpr) : str =
+  match e with
+  | XAtom (LfInt (neg, v)) -> "i:" ^ (if neg then "-" else "") ^ dec_of_n v
+  | XAtom (LfBool b) -> if b then "b:true" else "b:false"
+  | XAtom (LfStr c) -> "s:" ^ hex_of_text c
+  | XAtom (LfName n) -> "n:" ^ lname n
+  | XAtom (LfVar n) -> "v:" ^ lname n
+  | XBin (o, l, r) -> "(" ^ binop_name o ^ " " ^ sx_expr l ^ " " ^ sx_expr r ^ ")"
+  | XUn (o, x) -> "(" ^ unop_name o ^ " " ^ sx_expr x ^ ")"
+  | XCall (f, ps) -> "(call " ^ lname f ^ sx_params ps ^ ")"
+and sx_params ps = S.concat "" (List.map (fun p -> " " ^ sx_param p) ps)
+and sx_param p =
+  match p with
+  | PPos e -> "(pos " ^ sx_expr e ^ ")"
+  | PNamed (n, e) -> "(named " ^ lname n ^ " " ^ sx_expr e ^ ")"
+  | POut (neg, n, v) -> "(out " ^ (if neg then "1" else "0") ^ " " ^ lname n ^ " " ^ lname v ^ ")"
+let rec sx_stmt (s : stmt) : str =
+  match s with
+  | TAssign (v, e) -> "(assign " ^ lname v ^ " " ^ sx_expr e ^ ")"
+  | TCall (f, ps) -> "(fbcall " ^ lname f ^ sx_params ps ^ ")"
+  | TIf (c, b, eis, els) ->
+      "(if " ^ sx_expr c ^ " " ^ sx_list b ^ " (" ^ S.concat " " (List.map (fun (c, b) -> "(elsif " ^ sx_expr c ^ " " ^ sx_list b ^ ")") eis) ^ ") " ^ sx_list els ^ ")"
+  | TFor (v, a, b, st, body) ->
+      "(for " ^ lname v ^ " " ^ sx_expr a ^ " " ^ sx_expr b ^ " " ^ (match st with Some e -> sx_expr e | None -> "-") ^ " " ^ sx_list body ^ ")"
+  | TWhile (c, b) -> "(while " ^ sx_expr c ^ " " ^ sx_list b ^ ")"
+  | TRepeat (b, c) -> "(repeat " ^ sx_list b ^ " " ^ sx_expr c ^ ")"
+  | TExit -> "exit"
+  | TReturn -> "return"
+and sx_list l = "(" ^ S.concat " " (List.map sx_stmt l) ^ ")"
+let op_stmts (args : str list) : str list =
+  match args with
+  | [h] ->
+      (match parse_fb_text (text_of_hex h) with
+       | OParsed l -> ["parsed"; sx_list l]
+       | ORejected -> ["rejected"]
+       | OFuel -> ["fuel"]
+       | OScope -> ["scope"])
+  | _ -> ["bad-args"]
+
 let ops : (str * (str list -> str list)) list ref =
   ref [ ("lex", op_lex); ("semtok", op_semtok); ("decode", op_decode); ("lit", op_lit); ("cycle", op_cycle);
-        ("lsp", op_lsp); ("cli", op_cli); ("rule", op_rule); ("expr", op_expr); ("scope", op_scope) ]
+        ("lsp", op_lsp); ("cli", op_cli); ("rule", op_rule); ("expr", op_expr); ("scope", op_scope); ("stmts", op_stmts) ]
 
 
 let () =
